@@ -218,7 +218,7 @@ macro_rules! inst_1d {
             let q = qd.into_dimensionality::<$dq>().expect("query rank");
             macro_rules! go {
                 ($sname:expr, $strat:expr) => {{
-                    let ip = Interp1DBuilder::new(data.clone()).strategy($strat).build().expect("valid build");
+                    let ip = nimc::valid_build!(out, Interp1DBuilder::new(data.clone()).strategy($strat).build(), continue);
                     let sname = format!("{}/query-layout-{ql}", $sname);
                     let arr: R = catch(|| ip.interp_array(&q)).map(|r| r.map(|a| a.into_dyn()));
                     let singles: Vec<R> = q.iter().map(|&x| catch(|| ip.interp(x)).map(|r| r.map(|a| a.into_dyn()))).collect();
@@ -252,7 +252,7 @@ macro_rules! inst_2d {
             let qy = qyd.into_dimensionality::<$dq>().expect("query rank");
             macro_rules! go {
                 ($sname:expr, $strat:expr) => {{
-                    let ip = Interp2DBuilder::new(data.clone()).strategy($strat).build().expect("valid build");
+                    let ip = nimc::valid_build!(out, Interp2DBuilder::new(data.clone()).strategy($strat).build(), continue);
                     let sname = format!("{}/xs-layout-{ql}", $sname);
                     let arr: R = catch(|| ip.interp_array(&qx, &qy)).map(|r| r.map(|a| a.into_dyn()));
                     let singles: Vec<R> = qx.iter().zip(qy.iter()).map(|(&x, &y)| catch(|| ip.interp(x, y)).map(|r| r.map(|a| a.into_dyn()))).collect();
